@@ -276,8 +276,10 @@ class Snowpack(object):
             return self
         elif isinstance(other, Layer):
             newsp = copy.deepcopy(self)
+            # duplicate the upper interface (flat interface if the snowpack is empty)
+            interface = copy.deepcopy(self.interfaces[0]) if self.interfaces else Flat()
             newsp.layers.insert(0, copy.deepcopy(other))
-            newsp.interfaces.insert(0, copy.deepcopy(self.interfaces[0]))  # duplicate the upper interface
+            newsp.interfaces.insert(0, interface)
             newsp.update_layer_number()
             return newsp
         else:
@@ -294,8 +296,10 @@ class Snowpack(object):
         elif isinstance(other, SubstrateBase):
             self.substrate = other
         elif isinstance(other, Layer):
+            # duplicate the bottomost interface (flat interface if the snowpack is empty)
+            interface = copy.deepcopy(self.interfaces[-1]) if self.interfaces else Flat()
             self.layers.append(copy.deepcopy(other))
-            self.interfaces.append(copy.deepcopy(self.interfaces[-1]))  # duplicate the bottomost layer
+            self.interfaces.append(interface)
             self.update_layer_number()
         else:
             self.layers += other.layers
